@@ -39,6 +39,114 @@ def reachable(starts, efilter=None, avoid=(), stop=()):
     return list(seen.values())
 
 
+def reachable_with_values(starts, efilter=None, nonempty_loops=(), limit=20000):
+    """reachability that follows the values of simple locals through the graph (a small abstract interpretation, used where a plain graph
+    search calls a path feasible that no execution takes): a local is None / not-None / True / False / unknown; `x = <constant>`, `x = <name
+    bound by an except clause>` (an exception object: not None, true) and plain copies are followed, every other binding makes it unknown;
+    a branch whose test (`x`, `not x`, `x is None`, `x is not None`, and / or of those) is decided by the values is taken one way only.
+    A `for` head in nonempty_loops cannot take its `done` edge before its body ran once.  Returns the nodes reached."""
+    nonempty = set(id(x) for x in nonempty_loops)
+
+    def absval(e, env, handler_names):
+        if isinstance(e, ast.Constant):
+            if e.value is None:
+                return 'none'
+            if e.value is True:
+                return 'true'
+            if e.value is False:
+                return 'false'
+            return 'obj+' if e.value else 'obj-'
+        if isinstance(e, ast.Name):
+            if e.id in env:
+                return env[e.id]
+            if e.id in handler_names:
+                return 'obj+'
+        return None
+
+    def truth(e, env):
+        """True / False / None (unknown)"""
+        if isinstance(e, ast.UnaryOp) and isinstance(e.op, ast.Not):
+            t = truth(e.operand, env)
+            return None if t is None else (not t)
+        if isinstance(e, ast.BoolOp):
+            ts = [truth(v, env) for v in e.values]
+            if isinstance(e.op, ast.And):
+                return False if any(t is False for t in ts) else (True if all(t is True for t in ts) else None)
+            return True if any(t is True for t in ts) else (False if all(t is False for t in ts) else None)
+        if isinstance(e, ast.Compare) and len(e.ops) == 1 and isinstance(e.ops[0], (ast.Is, ast.IsNot)) and isinstance(e.comparators[0], ast.Constant) and e.comparators[0].value is None \
+                and isinstance(e.left, ast.Name) and e.left.id in env:
+            v = env[e.left.id]
+            if v is None:
+                return None
+            return (v == 'none') == isinstance(e.ops[0], ast.Is)
+        if isinstance(e, ast.Name) and e.id in env:
+            v = env[e.id]
+            return {'none': False, 'true': True, 'false': False, 'obj+': True, 'obj-': False}.get(v)
+        return None
+    seen = set()
+    out = {}
+    work = deque()
+    for s_ in starts:
+        work.append((s_, frozenset(), frozenset()))
+    steps = 0
+    while work:
+        n, envf, iterated = work.popleft()
+        key = (id(n), envf, iterated)
+        if key in seen:
+            continue
+        seen.add(key)
+        out[id(n)] = n
+        steps += 1
+        if steps > limit:
+            raise RuntimeError('reachable_with_values: state limit')
+        env = dict(envf)
+        handler_names = {x for x in env if env[x] == '@handler'}
+        # effect of the node
+        if n.kind == 'handler' and isinstance(n.ast, ast.ExceptHandler) and n.ast.name:
+            env[n.ast.name] = 'obj+'
+        elif n.kind == 'stmt' and isinstance(n.ast, ast.Assign):
+            for t in n.ast.targets:
+                if isinstance(t, ast.Name):
+                    env[t.id] = absval(n.ast.value, env, handler_names)
+                else:
+                    for y in ast.walk(t):
+                        if isinstance(y, ast.Name) and isinstance(y.ctx, ast.Store):
+                            env[y.id] = None
+        elif n.kind in ('stmt', 'for', 'with_enter') and isinstance(n.ast, ast.AST):
+            for y in ast.walk(n.ast if n.kind != 'for' else n.ast.target):
+                if isinstance(y, ast.Name) and isinstance(y.ctx, (ast.Store, ast.Del)):
+                    env[y.id] = None
+        if n.kind == 'branch':
+            tn = n.attrs.get('test')
+            pol = n.attrs.get('polarity')
+            if tn is not None and tn.kind == 'test' and pol in (True, False):
+                t = truth(tn.ast, env)
+                if t is not None and t != pol:
+                    continue
+                # refine
+                e = tn.ast
+                neg = False
+                while isinstance(e, ast.UnaryOp) and isinstance(e.op, ast.Not):
+                    e, neg = e.operand, not neg
+                holds = (pol != neg)
+                if isinstance(e, ast.Compare) and len(e.ops) == 1 and isinstance(e.ops[0], (ast.Is, ast.IsNot)) and isinstance(e.left, ast.Name) and \
+                        isinstance(e.comparators[0], ast.Constant) and e.comparators[0].value is None:
+                    is_none = holds == isinstance(e.ops[0], ast.Is)
+                    if is_none:
+                        env[e.left.id] = 'none'
+                    elif env.get(e.left.id) in (None, 'none'):
+                        env[e.left.id] = env.get(e.left.id) if env.get(e.left.id) not in ('none',) else None
+            if tn is not None and tn.kind == 'for':
+                if pol == 'iter':
+                    iterated = iterated | {id(tn)}
+                elif pol == 'done' and id(tn) in nonempty and id(tn) not in iterated:
+                    continue
+        envf2 = frozenset((k, v) for k, v in env.items() if v is not None)
+        for t_ in _succ(n, efilter):
+            work.append((t_, envf2, iterated))
+    return list(out.values())
+
+
 def path(starts, goal_pred, efilter=None, avoid=(), stop=()):
     """shortest path (list of nodes) from any start to a node satisfying
     goal_pred, or None."""
